@@ -377,3 +377,88 @@ Example broadcast_example :
                                          tr_text := [(2, [[105]]); (3, [[]])]; tr_atts := []; tr_qrs := [] |})
   = [(1, [104]); (2, [105]); (3, [104])].
 Proof. reflexivity. Qed.
+
+(* ---- send_email, say_msg, play_audio ---------------------------------------------------------------------- *)
+
+Lemma text_empty_iff t : text_empty t = true <-> t = [].
+Proof. destruct t; cbn; split; intros H; try reflexivity; discriminate. Qed.
+
+Lemma text_empty_false_iff t : text_empty t = false <-> t <> [].
+Proof. destruct t; cbn; split; intros H; try reflexivity; try discriminate. exfalso; apply H; reflexivity. Qed.
+
+(* an email carries the chain's choice for its subject and for its body (each resolved on its own); it is skipped
+   exactly when one of the two choices is the empty text *)
+Lemma send_email_spec cl allowed base subject body trs trb :
+  exists outs useds outb usedb,
+    spec_pick cl allowed base [subject] trs outs useds
+    /\ spec_pick cl allowed base [body] trb outb usedb
+    /\ ((hd [] outs = [] \/ hd [] outb = []) ->
+        send_email_texts cl allowed base subject body trs trb = None)
+    /\ (hd [] outs <> [] -> hd [] outb <> [] ->
+        send_email_texts cl allowed base subject body trs trb = Some (hd [] outs, hd [] outb)).
+Proof.
+  unfold send_email_texts.
+  destruct (get_text1_spec cl allowed base subject trs) as (outs & useds & Hs & _ & Es).
+  destruct (get_text1_spec cl allowed base body trb) as (outb & usedb & Hb & _ & Eb).
+  exists outs, useds, outb, usedb. rewrite Es, Eb. cbn [fst].
+  split; [exact Hs|]. split; [exact Hb|]. split.
+  - intros [H|H]; rewrite H; cbn; [reflexivity|].
+    destruct (text_empty (hd [] outs)); reflexivity.
+  - intros H1 H2. apply text_empty_false_iff in H1. apply text_empty_false_iff in H2.
+    rewrite H1, H2. reflexivity.
+Qed.
+
+(* say_msg: text and audio URL are each the chain's choice; the message is skipped exactly when both are empty; the
+   language it reports is the one used for its TEXT *)
+Lemma say_msg_spec cl allowed base txt audio trt tra :
+  exists outt usedt outa useda,
+    spec_pick cl allowed base [txt] trt outt usedt
+    /\ spec_pick cl allowed base [audio] tra outa useda
+    /\ (hd [] outt = [] -> hd [] outa = [] ->
+        say_msg_out cl allowed base txt audio trt tra = None)
+    /\ ((hd [] outt <> [] \/ hd [] outa <> []) ->
+        say_msg_out cl allowed base txt audio trt tra
+        = Some {| i_text := hd [] outt; i_audio := hd [] outa; i_lang := usedt |}).
+Proof.
+  unfold say_msg_out.
+  destruct (get_text1_spec cl allowed base txt trt) as (outt & usedt & Ht & _ & Et).
+  destruct (get_text1_spec cl allowed base audio tra) as (outa & useda & Ha & _ & Ea).
+  exists outt, usedt, outa, useda. rewrite Et, Ea. cbn [fst].
+  split; [exact Ht|]. split; [exact Ha|]. split.
+  - intros H1 H2. rewrite H1, H2. reflexivity.
+  - intros [H|H]; apply text_empty_false_iff in H; rewrite H.
+    + reflexivity.
+    + rewrite Bool.andb_false_r. reflexivity.
+Qed.
+
+(* play_audio: a text-less message whose only attachment is the chain's choice for the audio URL, reporting the
+   language of that choice; skipped exactly when the choice is empty *)
+Lemma play_audio_spec cl allowed base audio tra :
+  exists out used,
+    spec_pick cl allowed base [audio] tra out used
+    /\ (hd [] out = [] -> play_audio_out cl allowed base audio tra = None)
+    /\ (hd [] out <> [] ->
+        play_audio_out cl allowed base audio tra
+        = Some {| i_text := []; i_audio := hd [] out; i_lang := used |}).
+Proof.
+  unfold play_audio_out.
+  destruct (get_text1_spec cl allowed base audio tra) as (out & used & Hs & _ & E).
+  exists out, used. rewrite E. split; [exact Hs|]. split.
+  - intros H. rewrite H. reflexivity.
+  - intros H. apply text_empty_false_iff in H. rewrite H. reflexivity.
+Qed.
+
+(* non-vacuity: a translated subject with an untranslated body; a say_msg whose text comes from one language and
+   whose audio from another (the locale follows the text); a play_audio in the contact's language; the skips *)
+Example send_email_example :
+  send_email_texts 2 [2] 1 [115] [98] [(2, [[116]])] [] = Some ([116], [98])
+  /\ send_email_texts 2 [2] 1 [115] [98] [(2, [[]; [116]])] [] = None.
+Proof. split; reflexivity. Qed.
+
+Example say_msg_example :
+  say_msg_out 3 [3; 2] 1 [115] [] [] [(3, [[97]])]
+    = Some {| i_text := [115]; i_audio := [97]; i_lang := 1 |}
+  /\ say_msg_out 3 [3; 2] 1 [115] [] [(3, [[]; [120]])] [] = None
+  /\ play_audio_out 3 [3; 2] 1 [112] [(3, [[113]])] = Some {| i_text := []; i_audio := [113]; i_lang := 3 |}
+  /\ play_audio_out 3 [3; 2] 1 [112] [(3, [[]; [113]])] = None.
+Proof. repeat split. Qed.
